@@ -86,14 +86,14 @@ template <typename E, typename T>
 void applyH(const json &in, json &out) {
   const json &ja = in.at("a");
   const auto gp = opGrid<T>(ja.at("g"));
-  const Grid<T> &g = *gp;
+  auto &g = operandRef(gp);
   const Factors<T> fs(in, g);
   out["fs"] = fs.proj();
   withOrder(ja.at("o").get<size_t>(), [&](auto O) {
     constexpr size_t o = decltype(O)::value;
     if constexpr (o <= 3) {
       const auto ap = opSpline<T, o>(ja, g);
-      const Spline<T, o> &a = *ap;
+      auto &a = operandRef(ap);
       out["a"] = projSpline(a);
       // in threaded mode the operator and the form are shared const objects too
       const std::string ekey = std::string(Codec<T>::name) + in.at("ast").dump() + in.at("fs").dump();
@@ -126,10 +126,10 @@ template <typename E1, typename E2, typename T>
 void bfH(const json &in, json &out) {
   const json &ja = in.at("a"), &jb = in.at("b");
   const auto gp = opGrid<T>(ja.at("g"));
-  const Grid<T> &g = *gp;
+  auto &g = operandRef(gp);
   const bool bshare = in.value("bshare", 1) != 0;
   const auto gbp = bshare ? gp : opGrid<T>(jb.at("g"));
-  const Grid<T> &gb = *gbp;
+  auto &gb = operandRef(gbp);
   const Factors<T> fs(in, g);
   out["fs"] = fs.proj();
   withOrder(ja.at("o").get<size_t>(), [&](auto OA) {
@@ -138,13 +138,13 @@ void bfH(const json &in, json &out) {
       if constexpr (oa <= 3 && ob <= 3) {
         const auto ap = opSpline<T, oa>(ja, g);
         const auto bp = opSpline<T, ob>(jb, gb);
-        const Spline<T, oa> &a = *ap;
+        auto &a = operandRef(ap);
         // sameobj: the very same object is passed for both arguments (bf(a, a))
-        const Spline<T, ob> *pb = bp.get();
+        auto *pb = &operandRef(bp);
         if constexpr (oa == ob) {
-          if (in.value("sameobj", 0) != 0) pb = ap.get();
+          if (in.value("sameobj", 0) != 0) pb = &a;
         }
-        const Spline<T, ob> &b = *pb;
+        auto &b = *pb;
         out["a"] = projSpline(a);
         out["b"] = projSpline(b);
         guarded(out, "bf", [&] {
